@@ -72,6 +72,12 @@ class Written:
             self.text = sign + q + (' ' if sep else '') + s
 
 
+class WS(list):
+    """the written amounts of a journal; fmt = (position, Written) when a `commodity SYM / format AMOUNT` directive stands
+    before the posting at that position"""
+    fmt = None
+
+
 def gen_journal(rng, n):
     """n written amounts over 1-3 commodities, each commodity with a (mostly) consistent style"""
     nsym = rng.choice([1, 1, 2, 3])
@@ -101,6 +107,15 @@ def gen_journal(rng, n):
             seen.add(s)
             w.dcomma = st['dcomma']
         out.append(w)
+    out = WS(out)
+    # a format directive for one of the commodities, in a style of its own, in front or somewhere inside: what was learned
+    # up to and including it is what is displayed, whatever style and decimals the later postings are written in
+    cands = [s for s in syms if not styles[s]['dcomma']]
+    if cands and rng.random() < 0.25:
+        s = rng.choice(cands)
+        f = Written(rng, s, rng.choice(['pre', 'suf']), rng.random() < 0.5, rng.random() < 0.5, False, rng.choice([0, 2, 2, 3, 6]))
+        f.dcomma = False
+        out.fmt = (0 if rng.random() < 0.6 else rng.randrange(0, n), f)
     return out
 
 
@@ -128,7 +143,11 @@ def gen_symbol_sweep(rng):
 
 def render(ws):
     lines = []
+    fmt = getattr(ws, 'fmt', None)
     for i, w in enumerate(ws):
+        if fmt and fmt[0] == i:
+            q = '"%s"' % fmt[1].sym if needs_quote(fmt[1].sym) else fmt[1].sym
+            lines += ['commodity %s' % q, '    format %s' % fmt[1].text, '']
         lines += ['2020/01/%02d p%d' % (1 + i % 28, i), '    Assets:A%d    %s%s' % (i, w.text, getattr(w, 'cost_text', '')), '    Equity:Open', '']
     return '\n'.join(lines)
 
@@ -216,7 +235,11 @@ def run(ctx, n_override=None):
         if j % 3 == 1:
             add_costs(rng, ws)
         journals.append(ws)
-        model_lines.append(lib.sx(['journal', 'j%d' % j] + [w.text.encode('utf-8') for w in ws]))
+        items = [w.text.encode('utf-8') for w in ws]
+        if getattr(ws, 'fmt', None):
+            items.insert(ws.fmt[0], ['fmt', ws.fmt[1].text.encode('utf-8')])
+            res.count('format-directive:' + ('in-front' if ws.fmt[0] == 0 else 'inside'))
+        model_lines.append(lib.sx(['journal', 'j%d' % j] + items))
     mout = []
     for k in range(0, len(model_lines), 60):          # the extracted MPFR model works on 800-bit integers: keep batches small
         mout += lib.run_model('C04', model_lines[k:k + 60], timeout=1200)
@@ -234,7 +257,14 @@ def run(ctx, n_override=None):
         bad_lines = set(int(x) for x in re.findall(r'line (\d+):', errtxt))
         # what the oracle needs per commodity: max decimals written among ACCEPTED amounts
         cp, dcs, marks = {}, {}, set()
+        fmt = getattr(ws, 'fmt', None)
         for i, w in enumerate(ws):
+            if fmt and fmt[0] == i:
+                cp[fmt[1].sym] = max(cp.get(fmt[1].sym, 0), fmt[1].dec)
+                if getattr(fmt[1], 'has_marks', False):
+                    marks.add(fmt[1].sym)
+            if fmt and i >= fmt[0] and w.sym == fmt[1].sym:
+                continue            # written after the directive: teaches nothing
             if i in rows and w.sym:
                 cp[w.sym] = max(cp.get(w.sym, 0), w.dec)
                 if getattr(w, 'has_marks', False):
@@ -290,10 +320,16 @@ def run(ctx, n_override=None):
                     if not re.fullmatch(r'\d{1,3}(%s\d{3})*' % re.escape(m_), ip):
                         res.violations.append(dict(key='print:grouping', desc='%r: the integer part %r is not grouped in threes' % (txt, ip),
                                                    case=dict(journal=render(ws)), observed=txt, required='thousands marks every three digits'))
+                elif not getattr(w, 'dcomma', False):
+                    body = re.sub(r'[^0-9.,]', '', txt.replace('"%s"' % w.sym, '').replace(w.sym, ''))
+                    if ',' in body:
+                        res.violations.append(dict(key='print:marks-not-learned', desc='%r: thousands marks although no amount that teaches %s was written with them' % (txt, w.sym),
+                                                   case=dict(journal=render(ws)), observed=txt, required='no thousands marks'))
                 if shown != exact or any(c in txt for c in '",') or (k == 0 and len(w.text) > 12):
                     res.nontrivial.add(txt + '|' + rat)
                 if k == 0:
-                    printed.append((i, txt, exact, w.sym))
+                    if shown == exact:      # the re-read clause is about amounts printed at full precision: below a precision fixed by a
+                        printed.append((i, txt, exact, w.sym))      # format directive the display rounds, and that text is another quantity
                     # report columns (justify(), the default bal/reg formats) may drop the quotes of an unusual symbol, but only
                     # where the text stays unambiguous: the symbol set apart from the number by a space and free of spaces itself
                     col = r[6]
